@@ -77,7 +77,9 @@ fn run_case(c: &Case, out: &mut dyn Write) {
         writeln!(out, "{line} => {}", json!({"ret": v.get("ret")})).unwrap();
     }
     s.exec("pumpall");
+    krill::verif::fault::start_recording();
     krill::verif::lockdep::enable(true);
+    krill::verif::lockdep::set_perturb(0x9E37_79B9 ^ (c.id.len() as u64 * 7919) ^ c.threads.len() as u64);
     krill::verif::sched::set_drain_mode(false);
     let (tx, rx) = mpsc::channel();
     let sched_rt = SlowKrillRuntime::new(s.krill.runtime().clone());
@@ -131,8 +133,33 @@ fn run_case(c: &Case, out: &mut dyn Write) {
     let sched_done = sched.is_finished();
     if sched_done { let _ = sched.join(); }
     krill::verif::sched::set_drain_mode(true);
+    krill::verif::lockdep::set_perturb(0);
     krill::verif::lockdep::enable(false);
+    // the serials of the snapshots written to disk, in the order they were written
+    let fs_log = krill::verif::fault::take_log();
+    krill::verif::fault::stop_recording();
+    let mut written_serials: Vec<u64> = vec![];
+    for (kind, path, to) in &fs_log {
+        if kind.starts_with("remove") || kind.starts_with("delete") { continue; }
+        for p in [Some(path), to.as_ref()].into_iter().flatten() {
+            let comps: Vec<String> = p.components().map(|c| c.as_os_str().to_string_lossy().to_string()).collect();
+            if comps.last().map(|l| l == "snapshot.xml").unwrap_or(false) {
+                if let Some(pos) = comps.iter().position(|c| c == "rrdp") {
+                    if let Some(ser) = comps.get(pos + 2).and_then(|s| s.parse::<u64>().ok()) {
+                        if written_serials.last() != Some(&ser) { written_serials.push(ser); }
+                    }
+                }
+            }
+        }
+    }
     let edges = krill::verif::lockdep::take_edges();
+    // RRDP files on disk vs the publication server's state, once everything is idle
+    let content_serial = s.krill.repo_manager().repo_stats().map(|st| st.serial).unwrap_or(0);
+    let staged_pending = s.krill.repo_manager().update_rrdp_if_needed().ok().map(|r| r.is_some()).unwrap_or(false);
+    let content_serial_after = s.krill.repo_manager().repo_stats().map(|st| st.serial).unwrap_or(0);
+    let disk_serial: i64 = std::fs::read_to_string(s.krill.config().repo_dir().join("rrdp").join("notification.xml")).ok()
+        .and_then(|x| x.split("serial=\"").nth(1).and_then(|r| r.split('"').next().map(|v| v.to_string())))
+        .and_then(|v| v.parse().ok()).unwrap_or(-1);
     let conc_view = final_view(&mut s);
     drop(s);
     // ---- the one-at-a-time twin: same setup, then the threads' ops thread by thread
@@ -163,6 +190,8 @@ fn run_case(c: &Case, out: &mut dyn Write) {
         "rets": results.iter().map(|(i, v)| (i.to_string(), json!(v))).collect::<serde_json::Map<_, _>>(),
         "serial_rets": serial_rets.iter().map(|(i, v)| (i.to_string(), json!(v))).collect::<serde_json::Map<_, _>>(),
         "rets_same": rets_same, "state_same": same, "diff": diff,
+        "content_serial": content_serial, "content_serial_after_idle_update": content_serial_after,
+        "staged_pending": staged_pending, "disk_serial": disk_serial, "written_serials": written_serials,
         "rp_problems": conc_view.get("rp").and_then(|r| r.get("problems")).cloned().unwrap_or(Value::Null),
     });
     writeln!(out, "{line} => {obs}").unwrap();
@@ -189,6 +218,8 @@ fn gen_case(seed: u64, i: usize, rng: &mut Rng) -> (String, Vec<String>) {
         vec!["rollinit c".into()],
         vec!["sync b a".into(), "sync c ta".into(), "sync a ta".into()],
         vec!["bgpsec a +6".into(), "bgpsec a -6".into(), "bgpsec a +6".into()],
+        vec!["rrdp".into(), "rrdp".into(), "rrdp".into(), "rrdp".into(), "rrdp".into(), "rrdp".into()],
+        vec!["reposync a".into(), "rrdp".into(), "reposync b".into(), "rrdp".into(), "reposync c".into(), "rrdp".into()],
     ];
     let n = rng.range(3, 6) as usize;
     for t in 0..n {
